@@ -576,6 +576,23 @@ struct SRunner {
         s.neverLarge = true;
         if (w) check_slot(*w, "source after a failed construction");
         if (!G.viol.set()) check_slot(s, "re-created set after a failed construction");
+      } else if (io.kind == S_COPY_ASSIGN || (t.vecIsStd && (io.kind == S_INSERT_RANGE || io.kind == S_INSERT_IL || io.kind == S_BULK || io.kind == S_ASSIGN_IL))) {
+        // The underlying operation only has the basic guarantee (element-wise copy assignment; libstdc++'s range insert
+        // may even leave moved-from elements): the set may hold any mixture. It must still be usable: clear it and go on.
+        if (io.kind == S_COPY_ASSIGN) {
+          std::vector<Val> fwd, rev;
+          std::string err;
+          if (!t.walk(s.obj, fwd, rev, err)) viol(VK_FAULT, P(9), "after an injected fault in copy assignment: " + err);
+        }
+        if (!G.viol.set()) {
+          SetIOp clr;
+          clr.kind = S_CLEAR;
+          SetResult r2;
+          t.apply(s.obj, nullptr, clr, r2);
+          s.model.clear();
+          if (stats) stats->probe("cleared_after_basic_guarantee_fault");
+        }
+        if (w && !G.viol.set()) check_slot(*w, "source after a failed copy assignment");
       } else {
         resync(s, "after an injected fault");
         if (w && !G.viol.set()) resync(*w, "partner after an injected fault");
